@@ -72,6 +72,16 @@ def r16_1(ctx):
                 t = t.replace("!v", "\x00v")
                 t = t.replace("True", "\x01").replace("False", "True").replace("\x01", "False")
                 return t
+            # `E == true` / `E == false` (a shared filter instantiated with a constant) are E and !E
+            def unconst(t):
+                m_ = re.fullmatch(r"\((.*) == (True|False)\)", t, re.S)
+                return (m_.group(1), m_.group(2) == "False") if m_ else (t, None)
+            (ea, nega), (eb, negb) = unconst(a), unconst(b)
+            if nega is not None and negb is not None:
+                r.ob("Pick and Omit filters are exact negations (including default arms)", ea == eb and nega != negb, C.mloc(tr, filts[1]),
+                     "one shared selection, kept when listed / when not listed" if ea == eb and nega != negb else "%s  ||  %s" % (a[:200], b[:200]))
+                filts = []
+        if len(filts) == 2:
             # one must be the negation of the other
             na = a.replace("!", "")
             nb = b.replace("!", "")
